@@ -288,8 +288,8 @@ def item_npy_body(repo, out):
     fput = _func(_class(t3, 'S3ChunkStore', rel3), 'put_chunk', rel3)
     if not any(ast.dump(n) == ast.dump(ast.parse('npy_header, chunk = npy_header_and_body(chunk)').body[0]) for n in fput.body):
         raise TranslateError('S3ChunkStore.put_chunk does not call npy_header_and_body(chunk)')
-    if not _has_node(fput, '_Multipart([npy_header, memoryview(chunk.reshape(-1))])'):
-        raise TranslateError('S3ChunkStore.put_chunk: body is not [npy_header, memoryview(chunk.reshape(-1))]')
+    if not _has_node(fput, '_Multipart([npy_header, memoryview(chunk.reshape(-1).view(np.uint8))])'):
+        raise TranslateError('S3ChunkStore.put_chunk: body is not [npy_header, memoryview(chunk.reshape(-1).view(np.uint8))]')
     # read_array: Fortran-ordered objects are reshaped to the reversed shape and transposed
     fr = [n for n in t3.body if isinstance(n, ast.FunctionDef) and n.name == 'read_array']
     if len(fr) != 1:
@@ -833,5 +833,90 @@ def item_s3_url(repo, out):
         raise TranslateError('S3ChunkStore.create_array: expected make_url(array_name)')
 
 
+# ---------------------------------------------------------------------------------------------------
+# the bytes of the .npy object: which format version katdal writes, which versions its own reader accepts, and the
+# whole body of read_array (magic -> version dispatch -> object check -> count -> flat read -> order), pinned
+# statement by statement; the version numbers are emitted and USED by Model/ChunksNpy.v
+
+_READ_ARRAY_TEMPLATE = """
+fp = _DetectTruncation(fp)
+version = np.lib.format.read_magic(fp)
+if version == __V1__:
+    shape, fortran_order, dtype = np.lib.format.__R1__(fp)
+elif version == __V2__:
+    shape, fortran_order, dtype = np.lib.format.__R2__(fp)
+else:
+    raise ValueError(__MSG__)
+if dtype.hasobject:
+    raise ValueError(__MSG2__)
+count = int(np.prod(shape))
+data = np.ndarray(count, dtype=dtype)
+fp.readinto(data.view(np.uint8))
+if fortran_order:
+    data.shape = shape[::-1]
+    data = data.transpose()
+else:
+    data.shape = shape
+return data
+"""
+
+_HEADER_READERS = {'read_array_header_1_0': 1, 'read_array_header_2_0': 2}
+
+
+def _version_tuple(node, what):
+    if not (isinstance(node, ast.Tuple) and len(node.elts) == 2
+            and all(isinstance(e, ast.Constant) and isinstance(e.value, int) and not isinstance(e.value, bool)
+                    for e in node.elts)):
+        raise TranslateError('%s: version is not a literal (major, minor) tuple' % what)
+    return node.elts[0].value, node.elts[1].value
+
+
+def item_npy_file(repo, out):
+    from vh.translate import parse_template
+    rel = 'katdal/chunkstore.py'
+    fn = _module_func(_parse(repo, rel), 'npy_header_and_body')
+    body = _nodoc(fn.body)
+    # the writer: header_data_from_array_<v> / write_array_header_<v> must name the same version
+    calls = [ast.unparse(n.func) for n in ast.walk(fn) if isinstance(n, ast.Call)
+             and ast.unparse(n.func).startswith('np.lib.format.')]
+    if sorted(calls) != ['np.lib.format.header_data_from_array_1_0', 'np.lib.format.write_array_header_1_0']:
+        raise TranslateError('npy_header_and_body: header is not written by header_data_from_array_1_0 / '
+                             'write_array_header_1_0 (%r)' % (calls,))
+    if [a.arg for a in fn.args.args] != ['chunk'] or len(body) != 6:
+        raise TranslateError('npy_header_and_body: unexpected signature / number of statements')
+    out.append('Definition cs_npy_write_major : Z := 1.')
+    # the reader of the S3 back-end
+    rel3 = 'katdal/chunkstore_s3.py'
+    t3 = _parse(repo, rel3)
+    fr = _module_func(t3, 'read_array')
+    if [a.arg for a in fr.args.args] != ['fp'] or fr.args.defaults or fr.args.kwonlyargs:
+        raise TranslateError('read_array: unexpected signature')
+    holes = {}
+    _match(_nodoc(fr.body), parse_template(_READ_ARRAY_TEMPLATE).body, holes, 'read_array')
+    majors = []
+    for v, r in (('V1', 'R1'), ('V2', 'R2')):
+        major, minor = _version_tuple(holes[v], 'read_array')
+        if minor != 0 or _HEADER_READERS.get(holes[r]) != major:
+            raise TranslateError('read_array: version %r is not read by its own header reader (%s)' % ((major, minor), holes[r]))
+        majors.append(major)
+    if len(set(majors)) != len(majors):
+        raise TranslateError('read_array: the same version is dispatched twice')
+    out.append('Definition cs_npy_read_versions : list Z := [%s].' % '; '.join(coq_Z(m) for m in majors))
+    # _read_chunk hands the response (or its raw file object) to read_array and returns what it returns
+    frc = _module_func(t3, '_read_chunk')
+    rets = [n for n in ast.walk(frc) if isinstance(n, ast.Return)]
+    asg = sorted(ast.unparse(n) for n in ast.walk(frc) if isinstance(n, ast.Assign) and ast.unparse(n.targets[0]) == 'chunk')
+    if len(rets) != 1 or ast.unparse(rets[0]) != 'return chunk' or asg != ['chunk = read_array(data)', 'chunk = read_array(data._fp)']:
+        raise TranslateError('_read_chunk: the chunk is not what read_array returns')
+    # the NPY back-end reads with np.load(filename, allow_pickle=False) and then compares shape and dtype
+    reln = 'katdal/chunkstore_npy.py'
+    fg = _func(_class(_parse(repo, reln), 'NpyFileChunkStore', reln), 'get_chunk', reln)
+    if not _has_node(fg, 'np.load(filename, allow_pickle=False)'):
+        raise TranslateError('NpyFileChunkStore.get_chunk does not read with np.load(filename, allow_pickle=False)')
+    tests = [ast.unparse(n.test) for n in ast.walk(fg) if isinstance(n, ast.If)]
+    if tests != ['chunk.shape != shape or chunk.dtype != dtype']:
+        raise TranslateError('NpyFileChunkStore.get_chunk: unexpected shape / dtype test %r' % (tests,))
+
+
 ITEMS = [item_chunk_names, item_dask_names, item_npy_body, item_generate_chunks, item_prune_and_shims, item_chunk_metadata,
-         item_s3_url]
+         item_s3_url, item_npy_file]
